@@ -1193,3 +1193,31 @@ def _chain_general(call):
 
 
 AXIOMS["Iterator::chain"] = _chain_general
+
+
+# ------------------------------------------------------------------------------ mem::take
+
+@axiom("take", doc="mem::take(dest): returns old *dest, stores T::default() (an empty slice for `&mut [T]` / `&[T]`, None, 0, false)")
+def ax_mem_take(call):
+    l0 = tree_leaf(call.args[0])
+    if l0[0] != "ref":
+        return NotImplemented
+    addr = (l0[1], l0[2])          # one level: the place the `&mut T` points to (T may itself be a reference)
+    g = call.gargs
+    ty = str(g[0]) if g else ""
+    st = call.st
+    old = st.read_tree(addr[0], addr[1])
+    if ty.replace(" ", "").startswith("&") and "[" in ty:
+        root = ("SL", call.fr.uid, call.fr.bb, "empty")
+        st.write_tree(root, (), {(): ("array", 0), (("$len",),): ("int", 0)})
+        new = leaf_tree(("ref", root, ()))
+    elif ty.startswith("std::option::Option") or ty.startswith("Option"):
+        new = mk_variant("None")
+    elif ty in ("usize", "u64", "u32", "u16", "u8", "i32", "i64", "isize"):
+        new = leaf_tree(("int", 0))
+    elif ty == "bool":
+        new = leaf_tree(("int", 0))
+    else:
+        return NotImplemented
+    st.write_tree(addr[0], addr[1], new)
+    return call.ret(old)
